@@ -1,4 +1,5 @@
 import Mixin.Model.Nonce
+import Mixin.Facts.ExpectedC12
 import Mathlib.Tactic.FieldSimp
 import Mathlib.Tactic.Ring
 import Mathlib.Tactic.LinearCombination
@@ -246,6 +247,219 @@ theorem two_answers_leak {F : Type} [Field F] (a z c₁ c₂ s₁ s₂ : F)
   have hd : c₁ - c₂ ≠ 0 := sub_ne_zero.mpr hne
   field_simp
   rw [h₁, h₂]; ring
+
+/-! ## chain bookkeeping (kernel/cosi.go): a nonce is handed out for one snapshot only -/
+
+theorem lookup_cons_eq' (a b : Nat) (t : List (Nat × Nat)) : ((a, b) :: t).lookup a = some b := by
+  simp [List.lookup]
+
+theorem lookup_cons_ne' (k a b : Nat) (t : List (Nat × Nat)) (h : k ≠ a) :
+    ((a, b) :: t).lookup k = t.lookup k := by
+  have : (k == a) = false := by simpa using h
+  simp [List.lookup, this]
+
+theorem lookup_assocSet (k v k' : Nat) (l : List (Nat × Nat)) :
+    (assocSet k v l).lookup k' = if k' = k then some v else l.lookup k' := by
+  induction l with
+  | nil =>
+    by_cases h : k' = k
+    · subst h; simp [assocSet, lookup_cons_eq']
+    · simp [assocSet, lookup_cons_ne' _ _ _ _ h, h]
+  | cons p t ih =>
+    obtain ⟨a, b⟩ := p
+    by_cases ha : a = k
+    · subst ha
+      by_cases h : k' = a
+      · subst h; simp [assocSet, lookup_cons_eq']
+      · simp [assocSet, lookup_cons_ne' _ _ _ _ h, h]
+    · by_cases h : k' = k
+      · subst h
+        have hne : k' ≠ a := fun e => ha e.symm
+        simp only [assocSet, ha, if_false, lookup_cons_ne' _ _ _ _ hne, ih, if_true]
+      · by_cases h2 : k' = a
+        · subst h2
+          simp only [assocSet, ha, if_false, lookup_cons_eq', h]
+        · simp only [assocSet, ha, if_false, lookup_cons_ne' _ _ _ _ h2, ih, h]
+
+theorem lookup_assocDel_self (k : Nat) (l : List (Nat × Nat)) : (assocDel k l).lookup k = none := by
+  induction l with
+  | nil => simp [assocDel]
+  | cons q u ih =>
+    obtain ⟨c, d⟩ := q
+    by_cases hc : c = k
+    · have : assocDel k ((c, d) :: u) = assocDel k u := by simp [assocDel, hc]
+      rw [this]; exact ih
+    · have : assocDel k ((c, d) :: u) = (c, d) :: assocDel k u := by simp [assocDel, hc]
+      rw [this, lookup_cons_ne' _ _ _ _ (fun e => hc e.symm)]; exact ih
+
+theorem lookup_assocDel (k k' v : Nat) (l : List (Nat × Nat))
+    (h : (assocDel k l).lookup k' = some v) : l.lookup k' = some v := by
+  induction l with
+  | nil => simp [assocDel] at h
+  | cons p t ih =>
+    obtain ⟨a, b⟩ := p
+    by_cases ha : a = k
+    · have e : assocDel k ((a, b) :: t) = assocDel k t := by simp [assocDel, ha]
+      rw [e] at h
+      have hk : k' ≠ a := by
+        intro e2
+        rw [e2, ha, lookup_assocDel_self] at h
+        exact absurd h (by simp)
+      rw [lookup_cons_ne' _ _ _ _ hk]
+      exact ih h
+    · have e : assocDel k ((a, b) :: t) = (a, b) :: assocDel k t := by simp [assocDel, ha]
+      rw [e] at h
+      by_cases h2 : k' = a
+      · subst h2
+        rw [lookup_cons_eq'] at h ⊢
+        exact h
+      · rw [lookup_cons_ne' _ _ _ _ h2] at h ⊢
+        exact ih h
+
+/-- ghost invariant: `H` lists the `(nonce, snapshot)` pairs handed out so far -/
+structure BookInv (b : Book) (H : List (Nat × Nat)) : Prop where
+  nodup : b.randoms.Nodup
+  gone : ∀ p ∈ H, p.1 ∉ b.randoms
+  retained : ∀ s c, b.used.lookup s = some c → (c, s) ∈ H
+  functional : ∀ p ∈ H, ∀ q ∈ H, p.1 = q.1 → p.2 = q.2
+
+theorem evict_used_cases (maxR : Nat) (randoms : List Nat) (used : List (Nat × Nat)) (order : List Nat) :
+    (evict maxR randoms used order).used = used ∨
+    ∃ o, (evict maxR randoms used order).used = assocDel o used := by
+  unfold evict
+  by_cases h : order.length ≤ maxR
+  · rw [if_pos h]; left; rfl
+  · rw [if_neg h]
+    cases order with
+    | nil => left; rfl
+    | cons o rest => right; exact ⟨o, rfl⟩
+
+theorem evict_randoms (maxR : Nat) (randoms : List Nat) (used : List (Nat × Nat)) (order : List Nat) :
+    (evict maxR randoms used order).randoms = randoms := by
+  unfold evict
+  by_cases h : order.length ≤ maxR
+  · rw [if_pos h]
+  · rw [if_neg h]
+    cases order <;> rfl
+
+theorem retain_used_cases (maxR : Nat) (b : Book) (snap c : Nat) :
+    (retain maxR b snap c).used = assocSet snap c b.used ∨
+    ∃ o, (retain maxR b snap c).used = assocDel o (assocSet snap c b.used) := by
+  unfold retain
+  exact evict_used_cases _ _ _ _
+
+theorem retain_lookup (maxR : Nat) (b : Book) (snap c s c' : Nat)
+    (h : (retain maxR b snap c).used.lookup s = some c') :
+    (s = snap ∧ c' = c) ∨ b.used.lookup s = some c' := by
+  have hset : ∀ s c', (assocSet snap c b.used).lookup s = some c' →
+      (s = snap ∧ c' = c) ∨ b.used.lookup s = some c' := by
+    intro s c' h
+    rw [lookup_assocSet] at h
+    by_cases hs : s = snap
+    · left; simp [hs] at h; exact ⟨hs, h.symm⟩
+    · right; simpa [hs] using h
+  rcases retain_used_cases maxR b snap c with e | ⟨o, e⟩
+  · rw [e] at h; exact hset s c' h
+  · rw [e] at h; exact hset s c' (lookup_assocDel _ _ _ _ h)
+
+theorem retain_randoms (maxR : Nat) (b : Book) (snap c : Nat) :
+    (retain maxR b snap c).randoms = b.randoms := by
+  unfold retain
+  exact evict_randoms _ _ _ _
+
+/-- one `cosiRetrieveRandom` step preserves the invariant; a handed-out nonce is recorded -/
+theorem retrieve_inv (maxR : Nat) (b : Book) (H : List (Nat × Nat)) (snap c : Nat)
+    (inv : BookInv b H) :
+    BookInv (retrieve maxR b snap c).1
+      (match (retrieve maxR b snap c).2 with | some k => (k, snap) :: H | none => H) := by
+  unfold retrieve
+  by_cases h1 : b.used.lookup snap = some c
+  · simp only [h1, if_true]
+    have hin : (c, snap) ∈ H := inv.retained snap c h1
+    refine ⟨inv.nodup, ?_, ?_, ?_⟩
+    · intro p hp
+      rcases List.mem_cons.1 hp with rfl | hp
+      · exact inv.gone _ hin
+      · exact inv.gone p hp
+    · intro s c' h; exact List.mem_cons_of_mem _ (inv.retained s c' h)
+    · intro p hp q hq hpq
+      have hp' : p ∈ H := by rcases List.mem_cons.1 hp with rfl | hp; exact hin; exact hp
+      have hq' : q ∈ H := by rcases List.mem_cons.1 hq with rfl | hq; exact hin; exact hq
+      exact inv.functional p hp' q hq' hpq
+  · simp only [h1, if_false]
+    by_cases h2 : b.randoms.contains c = true
+    · simp only [h2, if_true]
+      have hc : c ∈ b.randoms := by simpa using h2
+      have hfresh : ∀ p ∈ H, p.1 ≠ c := fun p hp e => inv.gone p hp (e ▸ hc)
+      refine ⟨?_, ?_, ?_, ?_⟩
+      · show ((retain maxR b snap c).randoms.filter (· ≠ c)).Nodup
+        rw [retain_randoms]
+        exact inv.nodup.filter _
+      · intro p hp
+        show p.1 ∉ (retain maxR b snap c).randoms.filter (· ≠ c)
+        rw [retain_randoms]
+        rcases List.mem_cons.1 hp with rfl | hp
+        · simp
+        · intro hm
+          exact inv.gone p hp (List.mem_filter.1 hm).1
+      · intro s c' h
+        rcases retain_lookup maxR b snap c s c' h with ⟨rfl, rfl⟩ | h
+        · exact List.mem_cons_self
+        · exact List.mem_cons_of_mem _ (inv.retained s c' h)
+      · intro p hp q hq hpq
+        rcases List.mem_cons.1 hp with rfl | hp
+        · rcases List.mem_cons.1 hq with rfl | hq
+          · rfl
+          · exact absurd hpq.symm (hfresh q hq)
+        · rcases List.mem_cons.1 hq with rfl | hq
+          · exact absurd hpq (hfresh p hp)
+          · exact inv.functional p hp q hq hpq
+    · simp only [h2]
+      exact inv
+
+/-- a run of `cosiRetrieveRandom` calls `(snapshot, commitment)`; returns the final book and the
+    `(nonce, snapshot)` pairs handed out, latest first -/
+def runBook (maxR : Nat) : Book → List (Nat × Nat) → List (Nat × Nat) → Book × List (Nat × Nat)
+  | b, [], H => (b, H)
+  | b, (snap, c) :: rest, H =>
+    let r := retrieve maxR b snap c
+    runBook maxR r.1 rest (match r.2 with | some k => (k, snap) :: H | none => H)
+
+theorem runBook_inv (maxR : Nat) (b : Book) (ops : List (Nat × Nat)) (H : List (Nat × Nat))
+    (inv : BookInv b H) : BookInv (runBook maxR b ops H).1 (runBook maxR b ops H).2 := by
+  induction ops generalizing b H with
+  | nil => exact inv
+  | cons op rest ih =>
+    obtain ⟨snap, c⟩ := op
+    exact ih _ _ (retrieve_inv maxR b H snap c inv)
+
+/-- **retrieve_binds**: starting from a chain with unused nonces only, whatever sequence of
+    challenges arrives (for any retention bound), a nonce is never handed out for two different
+    snapshots: it leaves `CosiRandoms` when first handed out and is afterwards only reachable
+    through `UsedRandoms[snapshot]`. -/
+theorem retrieve_binds (maxR : Nat) (randoms : List Nat) (hnd : randoms.Nodup) (ops : List (Nat × Nat)) :
+    ∀ p ∈ (runBook maxR { randoms := randoms, used := [], order := [] } ops []).2,
+    ∀ q ∈ (runBook maxR { randoms := randoms, used := [], order := [] } ops []).2,
+      p.1 = q.1 → p.2 = q.2 :=
+  (runBook_inv maxR _ ops [] ⟨hnd, by simp, by simp [List.lookup], by simp⟩).functional
+
+/-- the nonce handed out is the one whose commitment was asked for -/
+theorem retrieve_commitment (maxR : Nat) (b : Book) (snap c k : Nat)
+    (h : (retrieve maxR b snap c).2 = some k) : k = c := by
+  unfold retrieve at h
+  by_cases h1 : b.used.lookup snap = some c
+  · rw [if_pos h1] at h
+    exact (Option.some.inj h).symm
+  · rw [if_neg h1] at h
+    by_cases h2 : b.randoms.contains c = true
+    · rw [if_pos h2] at h
+      exact (Option.some.inj h).symm
+    · rw [if_neg h2] at h
+      exact absurd h (by simp)
+
+example : (runBook 2 { randoms := [1, 2, 3], used := [], order := [] }
+    [(10, 1), (10, 1), (11, 1), (11, 2), (12, 3), (10, 1)] []).2 = [(3, 12), (2, 11), (1, 10), (1, 10)] := by
+  decide
 
 /-! ## non-vacuity -/
 
